@@ -65,7 +65,7 @@ func dcSampled(bb sdf.Box3, which string, cells int) (lo, hi, cell v3.Vec) {
 	size := bb.Size()
 	res := size.MaxComponent() / float64(cells)
 	n := [3]int{int(size.X / res), int(size.Y / res), int(size.Z / res)}
-	if which == "dc2" {
+	if len(which) >= 3 && which[:3] == "dc2" {
 		s2 := size.AddScalar(1e-12)
 		cell = v3.Vec{X: s2.X / float64(n[0]), Y: s2.Y / float64(n[1]), Z: s2.Z / float64(n[2])}
 		return bb.Min, bb.Max.AddScalar(1e-12), cell
@@ -220,12 +220,18 @@ func c19Measure(args []string) error {
 	for rep := 0; rep < reps; rep++ {
 		shapes := dcShapes(rnd)
 		if rep == 0 {
-			shapes = append(shapes, dcShape{name: "latticebox", lattice: true}, dcShape{name: "diagbox", lattice: true})
+			shapes = append(shapes, dcShape{name: "latticebox", lattice: true}, dcShape{name: "diagbox", lattice: true},
+				dcShape{name: "latticebox10", lattice: true})
 		}
 		for _, sh := range shapes {
 			for _, n := range res {
 				if sh.name == "latticebox" {
 					sh = latticeBox(n)
+				} else if sh.name == "latticebox10" {
+					// faces exactly on lattice planes with a cell size that is not a dyadic rational
+					size := v3.Vec{X: float64(n-6) * 0.1, Y: float64(n-8) * 0.1, Z: float64(n-10) * 0.1}
+					bx, _ := sdf.Box3D(size, 0)
+					sh = dcShape{name: "latticebox10", kind: "exact", s: bx, vol: size.X * size.Y * size.Z, param: fmtf(size.X, size.Y, size.Z), lattice: true}
 				} else if sh.name == "diagbox" {
 					sh = diagBox(n)
 				}
@@ -234,6 +240,15 @@ func c19Measure(args []string) error {
 					o := dcMeasure(sh, r, n, shift)
 					o.Rep = rep
 					emit(o)
+				}
+				if len(args) == 0 && n == res[1] {
+					// renderer settings / histories: no centre push (clamping still on); a renderer object reused
+					// after another shape on the same lattice
+					for _, r := range []string{"dc2p0", "dc2re"} {
+						o := dcMeasure(sh, r, n, shift)
+						o.Rep = rep
+						emit(o)
+					}
 				}
 			}
 		}
